@@ -270,6 +270,19 @@ theorem inv_adjustPool {s s' : State} {sender id add rpb} (hi : Inv s) (hu : isM
     obtain ⟨r, hr, e1, _, _, _, e5⟩ := mem_adjustRules hr'
     rw [e1, e5]
     exact c2.debt a id f p1 hf hp2 r hr
+  have hn0 := ghost_active (c2.ghost id p1 hp2) (by unfold C06.active; exact hact.1)
+  have ghostA : ∀ (st : State) (q : Pool), q.rules = adjustRules addL rpbL p1.rules → ∀ r' ∈ q.rules, RuleGhost st id q r' := by
+    intro st q hq r' hr'
+    rw [hq] at hr'
+    unfold adjustRules at hr'
+    simp only [List.mem_map] at hr'
+    obtain ⟨r, hr, e⟩ := hr'
+    have g := c2.ghost id p1 hp2 r hr
+    have hz := hn0 r hr
+    have c := g.1
+    unfold C06.RuleConserved at c
+    rw [← e]
+    refine ⟨by unfold C06.RuleConserved; simp only; omega, by simp only; omega, by intro e1; simp only at e1; omega, fun _ => hz.2⟩
   have gapA : ∀ (st : State) (q : Pool), st.pools = AMap.set s2.pools id q → st.bank = s2.bank →
       q.rules = adjustRules addL rpbL p1.rules → q.lpt = p1.lpt → q.locked = p1.locked → ∀ d, gap st d = 0 := by
     intro st q hpl hbk hq hlpt hlk d
@@ -305,7 +318,7 @@ theorem inv_adjustPool {s s' : State} {sender id add rpb} (hi : Inv s) (hu : isM
     have gself := getPool_set_self _ _ _ _ hpl
     have gother : ∀ id2, id ≠ id2 → getPool (setPool s2 id { p1 with rules := adjustRules addL rpbL p1.rules }) id2 = getPool s2 id2 :=
       fun id2 e => getPool_set_other s2 _ id id2 _ hpl e
-    refine ⟨⟨c2.hnn, poolsAll_set c2.wf hpl wfA.1, ?_, ?_, ?_, ?_, ?_⟩, hst, ?_⟩
+    refine ⟨⟨c2.hnn, poolsAll_set c2.wf hpl wfA.1, ?_, ?_, ?_, ?_, ?_, ?_⟩, hst, ?_⟩
     · show PoolsAll (PoolTime s2.height) _
       rw [hh2]
       have := c2.time; rw [hh2] at this
@@ -338,6 +351,12 @@ theorem inv_adjustPool {s s' : State} {sender id add rpb} (hi : Inv s) (hu : isM
       by_cases e : id = i
       · subst e; exact ⟨_, gself⟩
       · exact ⟨p2, by rw [gother i e]; exact hp2'⟩
+    · intro i p2 hp2' r hr
+      by_cases e : id = i
+      · subst e; rw [gself] at hp2'; cases hp2'
+        exact ghostA _ _ rfl r hr
+      · rw [gother i e] at hp2'
+        exact (c2.ghost i p2 hp2' r hr).transfer (fun h => h) (fun h => h)
     · rw [moduleAccount_iff]
       exact gapA _ _ hpl rfl rfl rfl rfl
   · -- the pool is re-queued at the new end height
@@ -369,7 +388,7 @@ theorem inv_adjustPool {s s' : State} {sender id add rpb} (hi : Inv s) (hu : isM
       have : (setPool (dequeue s2 id p1.endH) id pf).queue = (dequeue s2 id p1.endH).queue := rfl
       rw [this, mem_dequeue]
     have wfpf : PoolWF pf := by rw [← hq0]; exact wfA.2 newEnd
-    refine ⟨⟨by rw [hhe]; exact c2.hnn, poolsAll_set c2.wf hpl wfpf, ?_, ?_, ?_, ?_, ?_⟩, hst, ?_⟩
+    refine ⟨⟨by rw [hhe]; exact c2.hnn, poolsAll_set c2.wf hpl wfpf, ?_, ?_, ?_, ?_, ?_, ?_⟩, hst, ?_⟩
     · rw [hhe, hh2]
       have := c2.time; rw [hh2] at this
       exact poolsAll_set this hpl (timeA pf hpfr hpfl hpfs hpfk)
@@ -423,6 +442,23 @@ theorem inv_adjustPool {s s' : State} {sender id add rpb} (hi : Inv s) (hu : isM
       by_cases e : id = i
       · subst e; exact ⟨_, gself⟩
       · exact ⟨p2, by rw [gother i e]; exact hp2'⟩
+    · intro i p2 hp2' r hr
+      by_cases e : id = i
+      · subst e; rw [gself] at hp2'; cases hp2'
+        exact ghostA _ pf hpfr r hr
+      · rw [gother i e] at hp2'
+        refine (c2.ghost i p2 hp2' r hr).transfer ?_ (by rw [hhe]; exact fun h => h)
+        unfold C06.active
+        intro hf0
+        cases hcn : (enqueue (setPool (dequeue s2 id p1.endH) id pf) id newEnd).queue.contains (p2.endH, i) with
+        | false => rfl
+        | true =>
+          have hm : (p2.endH, i) ∈ (enqueue (setPool (dequeue s2 id p1.endH) id pf) id newEnd).queue := by simpa using hcn
+          rw [hmemq] at hm
+          rcases hm with ⟨hm, _⟩ | hm
+          · have : s2.queue.contains (p2.endH, i) = true := by simpa using hm
+            rw [this] at hf0; cases hf0
+          · exact absurd (Prod.mk.inj hm).2.symm e
     · rw [moduleAccount_iff]
       exact gapA _ pf hpl hbe hpfr hpft hpfk
 
